@@ -65,6 +65,8 @@ def fmt_atom(a):
     if isinstance(a, tuple) and a[0] == "arg": return a[2] if len(a) > 2 else "arg%d" % a[1]
     if isinstance(a, tuple) and a[0] == "udiv": return "floor((%s)/%d)" % (a[3] if len(a) > 3 else "...", a[2])
     if isinstance(a, tuple) and a[0] == "call": return "%s(..)" % a[1]
+    if isinstance(a, tuple) and a[0] == "q": return "/".join(a[1:])
+    if isinstance(a, tuple) and a[0] == "len": return "len%x(%s)" % (a[1], a[2])
     return repr(a)
 
 
@@ -91,9 +93,37 @@ class UB:
         self.iv = Intervals(fn, None, self.fi)
         self.loops = fn.loops(); fn.dom()
         self.sub = {}                # phi id -> placeholder polynomial while computing a loop advance
+        self.arg_role = {}           # k -> role name of the actual (sibling mode, when analysing a helper in its caller's context)
+        self.roles = False           # sibling mode: length calls and loads become atoms named by table / role (sa/sizeterms.py)
+        self.H = frozenset()         # loop headers whose continuation test the current use site has already passed
+        self.memos = {frozenset(): self.memo}; self.be_test = {}
         self.arg_poly = {}           # k -> Poly (actuals when analysing a callee in context)
 
     def arg_atom(self, k): return ("arg", k, self.fn.argnames.get(k, "arg%d" % k))
+
+    def at(self, block):
+        """evaluate subsequent bounds as seen from `block`: inside a loop body, after the continuation test that bounds the trip
+        count, a loop-carried value has taken at most (trips - 1) back edges"""
+        H = set()
+        for h, body in self.loops.items():
+            if block.id in body and block.id != h:
+                try: self.backedges(h)
+                except Unbounded: continue
+                tb, stay = self.be_test.get(h, (None, None))
+                if stay is None: continue
+                sb = self.fn.bmap[stay]
+                if [p.id for p in sb.preds] == [tb] and self.fn.dominates(stay, block.id): H.add(h)
+        self.H = frozenset(H); self.memo = self.memos.setdefault(self.H, {})
+        return self
+
+    def trips(self, h):
+        b = self.backedges(h)
+        if h in self.H:
+            b1 = b - Poly.const(1)
+            # (trips - 1) is only used as a multiplier of a non-negative advance; never let it go below zero for constants
+            if b1.is_const() and b1.c() < 0: return Poly.const(0)
+            return b1
+        return b
 
     # ---- upper bound of an integer value ----
     def ub(self, o):
@@ -102,6 +132,7 @@ class UB:
         if k == "null": return Poly.const(0)
         if k == "arg":
             if o["v"] in self.arg_poly: return self.arg_poly[o["v"]]
+            if self.roles: return Poly.atom(("q", self.fn.argnames.get(o["v"], "arg%d" % o["v"])))
             return Poly.atom(self.arg_atom(o["v"]))
         if k == "undef": return Poly.const(0)
         if k != "inst": raise Unbounded("operand %r" % (o,))
@@ -147,7 +178,7 @@ class UB:
         if op == "sub": return best(A(0) - self.lb(i.ops[1]))
         if op == "mul":
             a, b = A(0), A(1)
-            if not a.nonneg_coeffs() or not b.nonneg_coeffs(): raise Unbounded("product of bounds with negative terms")
+            # true values are non-negative (unsigned sizes and counts), so x <= a and y <= b give x*y <= a*b pointwise
             return best(a * b)
         if op == "shl":
             b = self.iv.ival(i.ops[1])
@@ -176,6 +207,27 @@ class UB:
             return A(0) + A(1)
         if op == "select": return pmax(A(1), A(2))
         if op == "icmp": return Poly.const(1)
+        if op == "load" and self.roles:
+            from . import sizeterms as ST
+            r = ST.role(self.fn, self.mod, {"k": "inst", "v": i.id, "t": i["t"]})
+            if r[0] in ("field", "param"): return Poly.atom(("q", r[1]))
+            if r[0] in ("elem", "elem-of", "member"): return Poly.atom(("q",) + tuple(map(str, r)))
+        if op == "call" and self.roles:
+            from . import sizeterms as ST
+            c = i.get("callee") or ""
+            vals = [i.ops[k] for k in range(i["nargs"]) if not i.ops[k]["t"].endswith("*")]
+            if len(vals) == 1 and self.mod.fn(c) is not None:
+                tab = ST.length_table(self.mod, c)
+                if tab[0] != "name":
+                    r = ST.role(self.fn, self.mod, vals[0])
+                    if r[0] in ("const", "const-max"):
+                        v = (1 << 64) - 1 if r[0] == "const-max" else r[1]
+                        return Poly.const(next(ln for (a, b, ln) in tab if a <= v <= b))
+                    name = r[1] if r[0] in ("field", "param") else "/".join(map(str, r))
+                    if r[0] == "param":
+                        pk = next((k for k, n in self.fn.argnames.items() if n == r[1]), None)
+                        if pk in self.arg_role: name = self.arg_role[pk]
+                    return Poly.atom(("len", hash(tab) & 0xffff, name))
         if op == "load":
             src = self.fi.load_source(i)
             if src is not None and not src["t"].endswith("*"): return self.ub(src)
@@ -202,6 +254,22 @@ class UB:
         if cr is not None: return Poly.const(cr)
         g = self.mod.fn(c) if c else None
         if g is None: raise Unbounded("call to %s" % c)
+        if self.roles and not g.decl and self.depth < 3:
+            from . import sizeterms as ST
+            sub = UB(self.w, g, depth=self.depth + 1); sub.roles = True
+            for k in range(i["nargs"]):
+                if i.ops[k]["t"].endswith("*"): continue
+                sub.arg_poly[k] = self.ub(i.ops[k])
+                r = ST.role(self.fn, self.mod, i.ops[k])
+                sub.arg_role[k] = r[1] if r[0] in ("field", "param") else "/".join(map(str, r))
+            r = None
+            for rt in g.rets():
+                if not rt.ops: continue
+                v = rt.ops[0]; cands = [v]
+                if v["k"] == "inst" and g.imap[v["v"]].op == "phi" and g.imap[v["v"]].block is rt.block: cands = [inc["v"] for inc in g.imap[v["v"]]["incoming"]]
+                for cv in cands:
+                    p = sub.ub(cv); r = p if r is None else pmax(r, p)
+            if r is not None: return r
         key = ("ret", c)
         cache = self.w.__dict__.setdefault("_esize_ret", {})
         if key not in cache:
@@ -255,7 +323,8 @@ class UB:
             for (ci, truth) in conds:
                 try: p = self.trip_from_cmp(ci, truth, h, body)
                 except Unbounded: p = None
-                if p is not None and (best is None or (best - p).nonneg_coeffs()): best = p
+                if p is not None and (best is None or (best - p).nonneg_coeffs()):
+                    best = p; self.be_test[h] = (bid, tru if stay_true else fls) if ci.block.id == bid else (None, None)
         if best is None: raise Unbounded("no recognisable exit test for the loop at block %d" % h)
         return best
 
@@ -362,7 +431,7 @@ class UB:
                 self.sub = saved
             if adv.is_const() and adv.c() <= 0: return init
             if not adv.nonneg_coeffs(): raise Unbounded("advance with negative terms")
-            return init + self.backedges(h) * adv
+            return init + self.trips(h) * adv
         out = None
         for inc in i["incoming"]:
             p = self.ub(inc["v"]); out = p if out is None else pmax(out, p)
@@ -415,7 +484,7 @@ class UB:
                 finally:
                     self.sub = saved; self.subroot = savedroot
                 if adv.is_const() and adv.c() <= 0: return root, init
-                return root, init + self.backedges(h) * adv
+                return root, init + self.trips(h) * adv
             root = None; out = None
             for inc in i["incoming"]:
                 if inc["v"]["k"] == "null": continue
@@ -427,3 +496,66 @@ class UB:
             src = self.fi.load_source(i)
             if src is not None: return self.ptr_ub(src)
         raise Unbounded("pointer from %s at line %s" % (i.op, i.line))
+
+
+    # ---- write extents ----
+    def extent(self, B, root, depth=0):
+        """upper bound (Poly) of offset + size over every write this function makes through `root`, and the number of write sites"""
+        from .bounds import MEM_INTR
+        from .core import ALLOC_FUNCS
+        fn = self.fn; fi = self.fi; worst = []; n = 0          # worst: the maximal bounds seen (pairwise incomparable)
+        live = B.live_blocks(fn)
+        def note(p):
+            nonlocal worst, n
+            n += 1
+            if any((q - p).nonneg_coeffs() for q in worst): return
+            worst = [q for q in worst if not (p - q).nonneg_coeffs()] + [p]
+        for b in fn.blocks:
+            if b.id not in live: continue
+            for i in b.insts:
+                if i.op == "store":
+                    if fi.ptr(i.ops[1])[0] != root: continue
+                    self.at(b); note(self.ptr_ub(i.ops[1])[1] + Poly.const(i["size"]))
+                elif i.op == "call":
+                    c = i.get("callee")
+                    if c and c.startswith(MEM_INTR):
+                        if fi.ptr(i.ops[0])[0] != root: continue
+                        self.at(b); note(self.ptr_ub(i.ops[0])[1] + self.ub(i.ops[2]))
+                    elif c and (c.startswith("llvm.") or c in ALLOC_FUNCS or c == "free"): continue
+                    else:
+                        for k in range(i["nargs"]):
+                            a = i.ops[k]
+                            if not a["t"].endswith("*"): continue
+                            if fi.ptr(a)[0] != root:
+                                if B.indirect_access(fn, i, k, root, "w"): raise Unbounded("%s writes the output through a pointer kept in a local object (line %s)" % (c, i.line))
+                                continue
+                            w = B.summary(c, k, "w") if c else ("inf", "indirect call")
+                            if w[0] == "none": continue
+                            self.at(b)
+                            cands = []
+                            for alt in (w[1] if w[0] == "alts" else [w]):
+                                if alt[0] == "const": cands.append(Poly.const(alt[1]))
+                                elif alt[0] == "arg":
+                                    try: cands.append(self.ub(i.ops[alt[1]]) * Poly.const(alt[2]))
+                                    except Unbounded: pass
+                            g = self.mod.fn(c) if c else None
+                            if g is not None and not g.decl and depth < 3:
+                                try:
+                                    sub = UB(self.w, g, depth=self.depth + 1)
+                                    for j in range(i["nargs"]):
+                                        if not i.ops[j]["t"].endswith("*"):
+                                            try: sub.arg_poly[j] = self.ub(i.ops[j])
+                                            except Unbounded: pass
+                                    e, _ = sub.extent(B, ("arg", k), depth + 1)
+                                    if e:
+                                        m = e[0]
+                                        for q in e[1:]: m = pmax(m, q)
+                                        cands.append(m)
+                                except Unbounded: pass
+                            if not cands: raise Unbounded("extent of %s through its argument %d (line %s): %s" % (c, k, i.line, w[1] if w[0] == "inf" else w))
+                            best = cands[0]
+                            for cnd in cands[1:]:
+                                if (best - cnd).nonneg_coeffs(): best = cnd
+                            note(self.ptr_ub(a)[1] + best)
+        self.at(fn.entry)
+        return worst, n
